@@ -609,13 +609,12 @@ static void caseDb(Rng& r, Ctx& c)
     s = genSet(r, c, withZ);
   Frame f;
   f.h = std::ldexp(1.0, r.irange(-3, 1));
-  bool polin = !is3d && r.coin(0.12); // dbPolygonDistance sub-case: keep coordinates small and >= 4 (see report)
-  if (!polin && r.coin(0.3)) { f.ox = (I64)r.irange(-100000, 100000); f.oy = (I64)r.irange(-100000, 100000); }
+  bool polin = !is3d && r.coin(0.12); // dbPolygonDistance sub-case
+  if (r.coin(0.3)) { f.ox = (I64)r.irange(-100000, 100000); f.oy = (I64)r.irange(-100000, 100000); }
   Ring all;
   for (auto& rr : s.rings) all.insert(all.end(), rr.begin(), rr.end());
   I64 x0, x1, y0, y1;
   bbox(all, x0, x1, y0, y1);
-  if (polin) { f.h = 1; f.ox = 8 - x0 + 4; f.oy = 8 - y0 + 4; }
   // grid: step 1 or 2 half-units, covering the bounding box + margin, node count bounded
   int step = r.coin(0.5) ? 2 : 1;
   I64 gx0 = x0 - 2 * r.irange(1, 2), gy0 = y0 - 2 * r.irange(1, 2);
